@@ -35,6 +35,10 @@ fn profile(name: &str) -> Profile {
         "small" => Profile { universe: 5, kheaps: vec![0, 2], vmax: 6, fit: 3, caps: vec![0, 1, 3, 7], calm: 0.0 },
         "wide" => Profile { universe: 48, kheaps: vec![0, 1, 3], vmax: 30, fit: 40, caps: vec![0, 3, 14, 64], calm: 0.93 },
         "churn" => Profile { universe: 64, kheaps: vec![0], vmax: 4, fit: 20, caps: vec![0, 7], calm: 0.97 },
+        // constant-length first-in-first-out churn over ever new keys: with a
+        // sequential (identity) or constant hasher the occupied slots form one
+        // dense run that wanders through the table, so tombstones pile up
+        "fifo" => Profile { universe: 24, kheaps: vec![0], vmax: 4, fit: 20, caps: vec![0, 3], calm: 1.0 },
         "large" => Profile { universe: 400, kheaps: vec![0, 4], vmax: 50, fit: 300, caps: vec![0, 64, 500], calm: 0.985 },
         _ => Profile { universe: 12, kheaps: vec![0, 2, 5], vmax: 16, fit: 8, caps: vec![0, 1, 3, 7, 14], calm: 0.3 }
     }
@@ -75,6 +79,7 @@ fn main() {
     let mut max_len = 0usize;
     let mut max_buckets = 0usize;
     let mut tomb_states = 0u64;
+    let mut next_key: u32 = 0;
 
     for _ in 0..steps {
         // end of a segment: drop everything and check nothing is left alive
@@ -91,7 +96,55 @@ fn main() {
         in_segment += 1;
         let alive: Vec<u32> = session.caches.keys().cloned().collect();
 
-        let mut o = if !alive.contains(&1) {
+        let mut o = if pname == "fifo" && alive.contains(&1) {
+            let cache = session.caches.get(&1).unwrap();
+            let len = cache.len();
+            let snap = cache.verif_snapshot();
+            max_len = max_len.max(len);
+            max_buckets = max_buckets.max(snap.buckets);
+            let full_cap = if snap.buckets <= 8 { snap.buckets.saturating_sub(1) } else { snap.buckets / 8 * 7 };
+            if cache.capacity() < full_cap && snap.buckets > 1 { tomb_states += 1; }
+            let recent = |rng: &mut StdRng, next_key: u32| -> u32 {
+                next_key.saturating_sub(rng.gen_range(0..(prof.fit as u32 + 3))).max(1)
+            };
+            let r = rng.gen_range(0..100);
+            let mut o;
+            if r < 80 {
+                next_key += 1;
+                o = op(if rng.gen_bool(0.9) { "insert" } else { "try_insert" }, 1);
+                o["a"]["k"] = json!(next_key);
+                o["a"]["vs"] = json!(rng.gen_range(0..=prof.vmax));
+            }
+            else if r < 88 {
+                o = op(["get", "touch", "get_entry"][rng.gen_range(0..3)], 1);
+                o["a"]["k"] = json!(recent(&mut rng, next_key));
+            }
+            else if r < 92 {
+                o = op(["peek", "contains", "peek_lru", "capacity", "len"][rng.gen_range(0..5)], 1);
+                if ["peek", "contains"].contains(&o["a"]["op"].as_str().unwrap()) {
+                    o["a"]["k"] = json!(recent(&mut rng, next_key));
+                }
+            }
+            else if r < 96 {
+                o = op(["remove", "remove_lru", "remove_entry"][rng.gen_range(0..3)], 1);
+                if o["a"]["op"] != "remove_lru" {
+                    o["a"]["k"] = json!(recent(&mut rng, next_key));
+                }
+            }
+            else if r < 98 {
+                o = op("mutate", 1);
+                o["a"]["k"] = json!(recent(&mut rng, next_key));
+                o["a"]["vs"] = json!(rng.gen_range(0..=prof.vmax));
+            }
+            else {
+                o = op(["reserve", "shrink_to_fit", "try_reserve"][rng.gen_range(0..3)], 1);
+                if o["a"]["op"] != "shrink_to_fit" {
+                    o["a"]["n"] = json!(rng.gen_range(0..4));
+                }
+            }
+            o
+        }
+        else if !alive.contains(&1) {
             let mut o = op("new", 1);
             let choice = if prof.calm > 0.5 { rng.gen_range(1..10).max(2) } else { rng.gen_range(0..10) };
             let choice = if prof.calm > 0.5 && choice == 3 { 4 } else { choice };
